@@ -46,6 +46,7 @@ def concretise(job, unit, res, workdir, log):
         ghosts = job.get('ghosts', [])
         K = job.get('cex_K', 6)
         hg = RP.HarnessGen(lw, fn, job['specs'][fn], ghosts, K=K)
+        hg.native_skip_ensures = bool(job.get('native_skip_ensures'))
         htext = hg.build()
         stubs = ''
         stub_fns = []
@@ -60,7 +61,8 @@ def concretise(job, unit, res, workdir, log):
         gtext = ''.join('%s %s;\n' % (t, g) for t, g in ghosts)
         jd = os.path.join(workdir, 'cex_' + re.sub(r'[^A-Za-z0-9_.-]', '_', job['name']))
         os.makedirs(jd, exist_ok=True)
-        body_c = gtext + job.get('pre', '') + '\n' + text + '\n' + job.get('extra', '') + '\n' + stubs + '\n' + htext
+        pre_c = '#ifdef QX_NATIVE\n' + job.get('native_pre', job.get('pre', '')) + '\n#else\n' + job.get('pre', '') + '\n#endif\n'
+        body_c = gtext + pre_c + '\n' + text + '\n' + job.get('extra', '') + '\n' + stubs + '\n' + htext
         cfile = os.path.join(jd, 'cex.c')
         with open(cfile, 'w') as f:
             f.write('#ifdef QX_NATIVE\n' + RP.NATIVE_PRE + '#include "inputs.h"\n#else\n' + RP.CBMC_PRE + '#endif\n' + body_c +
@@ -98,7 +100,7 @@ def concretise(job, unit, res, workdir, log):
         # the native harness links the REAL function (wrapper) -- the lowered body of fn is compiled out
         nat_c = os.path.join(jd, 'native.c')
         with open(nat_c, 'w') as f:
-            f.write(RP.NATIVE_PRE + '#include "inputs.h"\n' + gtext + job.get('pre', '') + '\n' + text + '\n' +
+            f.write(RP.NATIVE_PRE + '#include "inputs.h"\n' + gtext + job.get('native_pre', job.get('pre', '')) + '\n' + text + '\n' +
                     job.get('extra', '') + '\n' + stubs + '\n' + htext + '\nint main(void) { qx_harness(); return qx_failed; }\n')
         exe = os.path.join(jd, 'replay')
         defs = ['-D' + d for d in unit.get('defines', ())]
